@@ -361,36 +361,65 @@ def used_names(node):
 
 
 def _loads(n, bound):
+    """Loads of names not in `bound`, in evaluation order; a walrus binds its target for what is evaluated after it
+    (only where that later part cannot run without the walrus having run)."""
+    return _loads_seq(n, set(bound))[0]
+
+
+def _loads_seq(n, bound):
+    # returns (loads, bound afterwards); `bound` is not mutated
     out = []
     if isinstance(n, ast.Name):
         if isinstance(n.ctx, ast.Load) and n.id not in bound:
             out.append((n.id, n))
-        return out
+        return out, bound
+    if isinstance(n, ast.NamedExpr):
+        o, b = _loads_seq(n.value, bound)
+        if isinstance(n.target, ast.Name):
+            b = b | {n.target.id}
+        return o, b
+    if isinstance(n, ast.BoolOp):
+        b = bound
+        after = None
+        for v in n.values:
+            o, b = _loads_seq(v, b)
+            out.extend(o)
+            if after is None:
+                after = b
+        return out, after if after is not None else bound
+    if isinstance(n, ast.IfExp):
+        o, b = _loads_seq(n.test, bound)
+        out.extend(o)
+        out.extend(_loads_seq(n.body, b)[0])
+        out.extend(_loads_seq(n.orelse, b)[0])
+        return out, b
     if isinstance(n, FUNC_NODES):
         # free variables of nested functions are read later; defaults now
         for d in n.args.defaults + [k for k in n.args.kw_defaults if k is not None]:
-            out.extend(_loads(d, bound))
-        return out
+            out.extend(_loads_seq(d, bound)[0])
+        return out, bound
     if isinstance(n, ast.ClassDef):
-        return out
+        return out, bound
     if isinstance(n, (ast.ListComp, ast.SetComp, ast.GeneratorExp, ast.DictComp)):
         b = set(bound)
         first = True
         for g in n.generators:
-            out.extend(_loads(g.iter, bound if first else b))
+            out.extend(_loads_seq(g.iter, bound if first else b)[0])
             first = False
             b |= _target_names(g.target)
             for c in g.ifs:
-                out.extend(_loads(c, b))
+                out.extend(_loads_seq(c, b)[0])
         if isinstance(n, ast.DictComp):
-            out.extend(_loads(n.key, b))
-            out.extend(_loads(n.value, b))
+            out.extend(_loads_seq(n.key, b)[0])
+            out.extend(_loads_seq(n.value, b)[0])
         else:
-            out.extend(_loads(n.elt, b))
-        return out
+            out.extend(_loads_seq(n.elt, b)[0])
+        return out, bound
+    b = bound
     for c in ast.iter_child_nodes(n):
-        out.extend(_loads(c, bound))
-    return out
+        o, b = _loads_seq(c, b)
+        out.extend(o)
+    return out, b
 
 
 def local_names(fnode, params):
